@@ -41,7 +41,10 @@ def chk_rx(r):
 def chk_cfg(G):
     from gambatools.cfg_algorithms import cfg_print_simple, parse_simple_cfg
     t = cfg_print_simple(G); G2 = parse_simple_cfg(t)
-    same = (set(G2.V) == set(G.V) and set(G2.Sigma) == set(G.Sigma) and G2.S == G.S and [(r.variable, list(r.alternative.symbols)) for r in G2.R] == [(r.variable, list(r.alternative.symbols)) for r in sorted_by_head(G)])
+    # an equal grammar: same variables, terminals and start variable, the same rules (as a multiset: the order of the rules in G.R is not part of
+    # the grammar, and the library's own CFG.__eq__ ignores it too; the printed order puts the start variable first)
+    key = lambda H: sorted((str(r.variable), tuple(map(str, r.alternative.symbols))) for r in H.R)
+    same = (set(G2.V) == set(G.V) and set(G2.Sigma) == set(G.Sigma) and G2.S == G.S and key(G2) == key(G))
     return (G2 == G) and same, 'equal grammar after parse(print(G))', {'text': t, 'reparsed': str(G2)}
 
 
@@ -62,6 +65,7 @@ def simple_grammar(rnd):
             rhs = [rnd.choice(V + ['a', 'b']) for _ in range(rnd.randint(0, 3))]
             if (v, rhs) not in rules: rules.append((v, rhs))
     Sg = sorted({x for _, r in rules for x in r if x not in V})
+    if rnd.random() < 0.5: rnd.shuffle(rules)        # the rules of one variable need not be adjacent in G.R
     return E.mk_cfg(rules, S='S', V=V, Sigma=Sg, eps='ε')
 
 
@@ -93,4 +97,4 @@ def run(R):
         R.guard('regexp', 'regexp-roundtrip', lambda: {'r': desc(r)}, lambda: chk_rx(r) + (('r%d' % i,),), 'print/parse regexp')
         G = simple_grammar(rnd)
         R.guard('grammar', 'grammar-roundtrip', lambda: {'G': desc(G)}, lambda: chk_cfg(G) + (('g%d' % i,),), 'cfg_print_simple/parse_simple_cfg')
-    R.bounds['roundtrip'] = 'all DFAs with 1 state over {a,b} / 2 states over {a}, hand-written corner cases (empty alphabet, empty accepting set, states without transitions, multi-label edges interrupted in symbol order); seeded random DFAs, NFAs (epsilon in _, ε, e), PDAs (stack symbols incl. $ % # @), TMs (tape symbols incl. % $ #, blank _ or □); all regexps of size <=3 over {a,b} and random trees of size 4-8 in three printed forms; random simple-format grammars (<=3 variables, every variable has rules)'
+    R.bounds['roundtrip'] = 'grammars with the rules of a variable adjacent or interleaved; all DFAs with 1 state over {a,b} / 2 states over {a}, hand-written corner cases (empty alphabet, empty accepting set, states without transitions, multi-label edges interrupted in symbol order); seeded random DFAs, NFAs (epsilon in _, ε, e), PDAs (stack symbols incl. $ % # @), TMs (tape symbols incl. % $ #, blank _ or □); all regexps of size <=3 over {a,b} and random trees of size 4-8 in three printed forms; random simple-format grammars (<=3 variables, every variable has rules)'
